@@ -84,12 +84,32 @@ func victimMain(spec string) {
 	}
 	vh.QuietLogs(logger.FatalLevel)
 	setDefs()
+	if c.Fault == "handback-at-stop" {
+		defs.BufferMaxNumChunksInMemory = 64 // many chunks stay unsaved: both the feeder and the consumer have files to write at the stop
+	}
 	mf := promreg.NewMetricFactory("v_", nil, nil)
 	b := newBuffer(root, mf)
 	b.Start()
 	args := b.RegisterNewConsumer() // a consumer that stalls: chunks stay queued
 	go func() {
+		// handback-at-stop: the consumer takes K chunks without confirming them (sent, not acknowledged) and hands them back
+		// when it is told to stop, while the feeder saves what is still queued: two writers in one queue directory
+		var held []base.LogChunk
+		for c.Fault == "handback-at-stop" && len(held) < c.K {
+			select {
+			case ch, ok := <-args.InputChannel:
+				if ok {
+					held = append(held, ch)
+					continue
+				}
+			case <-args.InputClosed.Channel():
+			}
+			break
+		}
 		<-args.InputClosed.Channel()
+		for _, ch := range held {
+			args.OnChunkLeftover(ch)
+		}
 		args.OnFinished()
 	}()
 	rep := victimReport{}
@@ -215,7 +235,7 @@ func runCase(c Case) vh.Result {
 		panic("victim could not set up the fault: " + out.String())
 	}
 	size := c.Sizes[c.Target]
-	midWrite := c.Fault == "fsize-steps" || c.Fault == "damage:empty" || (strings.HasPrefix(c.Fault, "fsize") && c.K > 0 && c.K < size) || c.Fault == "kill:after-open" || c.Fault == "kill:after-write" || c.Fault == "kill:after-close"
+	midWrite := c.Fault == "handback-at-stop" || c.Fault == "fsize-steps" || c.Fault == "damage:empty" || (strings.HasPrefix(c.Fault, "fsize") && c.K > 0 && c.K < size) || c.Fault == "kill:after-open" || c.Fault == "kill:after-write" || c.Fault == "kill:after-close"
 	res.NonTrivial = midWrite
 	res.Classes = append(res.Classes, "fault-"+c.Fault)
 	if died {
@@ -290,7 +310,7 @@ loop:
 			res.Violation = vh.Fail(key, "chunk %d (%s): %d bytes were produced, %d bytes reached the consumer after the restart (fault %s k=%d on chunk %d; victim died=%v)", i, id, len(want), len(got), c.Fault, c.K, c.Target, died)
 			return res
 		}
-		if i == c.Target {
+		if i == c.Target && c.Fault != "handback-at-stop" {
 			if c.Fault == "damage:empty" && (ok || recoveredDropped < 1) {
 				res.Violation = vh.Fail("crash:empty-file-not-handled", "the empty file of chunk %d was delivered=%v, dropped counter of the restarted agent %v", i, ok, recoveredDropped)
 				return res
@@ -328,10 +348,20 @@ loop:
 	return res
 }
 
+// (handback-at-stop is generated separately: it has its own shape of case)
 var faults = []string{"fsize-error", "fsize-kill", "fsize-killmid", "damage:empty", "kill:after-open", "kill:after-write", "kill:after-close", "kill:after-rename", "fsize-steps"}
 
 func genCase(t *rapid.T) Case {
 	var c Case
+	if rapid.IntRange(0, 9).Draw(t, "handback") == 0 {
+		// no I/O fault: a graceful stop at which the consumer hands back unsaved chunks while the feeder saves the queue
+		n := rapid.IntRange(8, 40).Draw(t, "n")
+		for i := 0; i < n; i++ {
+			c.Sizes = append(c.Sizes, rapid.IntRange(20000, 300000).Draw(t, "size"))
+		}
+		c.Target, c.Fault, c.K = 1, "handback-at-stop", rapid.IntRange(2, n-2).Draw(t, "held")
+		return c
+	}
 	n := rapid.IntRange(2, 6).Draw(t, "n")
 	for i := 0; i < n; i++ {
 		c.Sizes = append(c.Sizes, rapid.OneOf(rapid.IntRange(1, 64), rapid.IntRange(100, 5000), rapid.SampledFrom([]int{4096, 8192, 65536, 200000})).Draw(t, "size"))
